@@ -418,12 +418,22 @@ def run_record(case):
       viol.append({'mechanism': 'final-record-differs:' +
                    d.split(':')[0].split('[')[0], 'detail': {'diff': d}})
     from openhtf.output.callbacks import json_factory
-    buf = io.BytesIO()
-    json_factory.OutputToJSON(buf)(rec)
+    for _ in range(4):
+      # the JSON bytes and the fresh rendering are two reads of the record: a
+      # log line still in flight on a thread left over from an abandoned body
+      # may land between them; such a pair is read again (counted, not judged)
+      n0 = len(rec.log_records)
+      buf = io.BytesIO()
+      json_factory.OutputToJSON(buf)(rec)
+      want0 = render.norm(render.test_rec(rec))
+      if len(rec.log_records) == n0:
+        break
+      c['record_changed_during_comparison'] = c.get(
+          'record_changed_during_comparison', 0) + 1
     try:
       doc = strict_loads(buf.getvalue())
       c['json_documents_parsed'] = 1
-      want = render.norm(render.test_rec(rec))
+      want = want0
       for p, orig in zip(want['phases'], rec.phases):
         p['attachments'] = {
             n: dict(a._asdict(),  # pylint: disable=protected-access
